@@ -126,6 +126,15 @@ func (fe *FlagEnv) atomOf(e ast.Expr) (clAtom, bool, bool) {
 			}
 		}
 	case *ast.BinaryExpr:
+		if tvx, ok := info.Types[x.X]; ok && tvx.Value != nil {
+			// constant on the left: mirror the comparison
+			if _, isID := ast.Unparen(x.Y).(*ast.Ident); isID {
+				m := map[token.Token]token.Token{token.EQL: token.EQL, token.NEQ: token.NEQ, token.LSS: token.GTR, token.GTR: token.LSS, token.LEQ: token.GEQ, token.GEQ: token.LEQ}
+				if op, ok := m[x.Op]; ok {
+					return fe.atomOf(&ast.BinaryExpr{X: x.Y, Op: op, Y: x.X})
+				}
+			}
+		}
 		id, ok := ast.Unparen(x.X).(*ast.Ident)
 		if !ok {
 			return clAtom{}, false, false
@@ -140,6 +149,7 @@ func (fe *FlagEnv) atomOf(e ast.Expr) (clAtom, bool, bool) {
 			return clAtom{}, false, false
 		}
 		zero := tv.Value.Kind() == constant.Int && constant.Sign(tv.Value) == 0
+		one := tv.Value.Kind() == constant.Int && tv.Value.ExactString() == "1"
 		switch x.Op {
 		case token.EQL:
 			return clAtom{v: o, kind: "eq", c: tv.Value.ExactString()}, false, true
@@ -149,6 +159,18 @@ func (fe *FlagEnv) atomOf(e ast.Expr) (clAtom, bool, bool) {
 			if zero {
 				// v > 0 is treated as v != 0 (negative counts are rejected earlier)
 				return clAtom{v: o, kind: "eq", c: "0"}, true, true
+			}
+		case token.LEQ:
+			if zero { // v <= 0, i.e. v == 0 for a count
+				return clAtom{v: o, kind: "eq", c: "0"}, false, true
+			}
+		case token.GEQ:
+			if one { // v >= 1
+				return clAtom{v: o, kind: "eq", c: "0"}, true, true
+			}
+		case token.LSS:
+			if one { // v < 1
+				return clAtom{v: o, kind: "eq", c: "0"}, false, true
 			}
 		}
 	}
@@ -275,6 +297,68 @@ func (fe *FlagEnv) ReachableWhenAllFalse(guards []ast.Expr, sites []ast.Node) (o
 					}
 					excluded[a.v][a.c] = true
 				}
+			}
+		}
+		// A boolean flag defined once carries its definition with it:
+		// wantz := initz || compz == lapack.EVOrig with wantz false gives
+		// initz false and compz != EVOrig, and initz := compz == EVTridiag
+		// false gives compz != EVTridiag.
+		var propagate func(e ast.Expr, truth bool, depth int)
+		propagate = func(e ast.Expr, truth bool, depth int) {
+			if depth > 6 {
+				return
+			}
+			e = ast.Unparen(e)
+			switch x := e.(type) {
+			case *ast.UnaryExpr:
+				if x.Op == token.NOT {
+					propagate(x.X, !truth, depth+1)
+				}
+				return
+			case *ast.BinaryExpr:
+				if x.Op == token.LOR && !truth || x.Op == token.LAND && truth {
+					propagate(x.X, truth, depth+1)
+					propagate(x.Y, truth, depth+1)
+					return
+				}
+				if x.Op == token.LOR || x.Op == token.LAND {
+					return
+				}
+			}
+			a, neg, ok := fe.atomOf(e)
+			if !ok {
+				return
+			}
+			t := truth != neg
+			switch a.kind {
+			case "bool":
+				if old, ok := boolv[a.v]; ok {
+					if old != t {
+						feasible = false
+					}
+					return
+				}
+				boolv[a.v] = t
+				if def, ok := fe.boolDef[a.v]; ok {
+					propagate(def, t, depth+1)
+				}
+			case "eq":
+				if t {
+					if f, ok := forced[a.v]; ok && f != a.c {
+						feasible = false
+					}
+					forced[a.v] = a.c
+				} else {
+					if excluded[a.v] == nil {
+						excluded[a.v] = map[string]bool{}
+					}
+					excluded[a.v][a.c] = true
+				}
+			}
+		}
+		for bv, t := range boolv {
+			if def, ok := fe.boolDef[bv]; ok {
+				propagate(def, t, 0)
 			}
 		}
 		for v, f := range forced {
